@@ -188,6 +188,13 @@ func c13(c *core.Ctx) {
 			}
 			// a splice helper that validates its own byte parameter before it splices needs no validation at the call
 			if t2 := p.ByObj[core.Callee(info, call)]; t2 != nil && t2.Decl.Body != nil && selfValidating(p, t2, validators) {
+				for _, a := range call.Args {
+					if isOpValue(info, a) {
+						nSplice++
+						c.Touch(f)
+						rV.Ok(f.Key+":"+core.ExprStr(call.Fun)+"("+core.ExprStr(a)+")", call.Pos(), "validated inside "+t2.Obj.Name()+" before it splices")
+					}
+				}
 				return
 			}
 			var tainted ast.Expr
